@@ -1,4 +1,4 @@
-import Leantest.LA
+import LA  -- prototype: place LA.lean next to this file
 /-! Feasibility sketch of the Lean driver for C08: same line protocol as corrproto/main.go -/
 open LA
 
